@@ -1,6 +1,7 @@
 import OdcGeo.Model.C16
 import OdcGeo.Model.C16Link
 import OdcGeo.Model.C16Ext
+import OdcGeo.Model.C16C14
 import OdcGeo.Spec.PySlice
 namespace OdcGeo.C16.Drv
 open OdcGeo OdcGeo.IO OdcGeo.C16
@@ -102,6 +103,15 @@ def parseOperand? (s : String) : Option Operand :=
 def fmtSetOut {α : Type} (f : α → String) : SetOut α → String
   | .refused => "REFUSED"
   | .res r => fmtRes f r
+
+/-- GridSpec token `ny:nx:rx:ry:ox:oy:fx:fy` → the exact-arithmetic GridSpec of the C14 model -/
+def parseGridSpec? (s : String) : Option (Res C14.GridSpec) :=
+  match s.splitOn ":" with
+  | [ny, nx, rx, ry, ox, oy, fx, fy] => do
+    let ny ← parseInt? ny; let nx ← parseInt? nx; let rx ← parseRat? rx; let ry ← parseRat? ry
+    let ox ← parseRat? ox; let oy ← parseRat? oy; let fx ← parseBool? fx; let fy ← parseBool? fy
+    pure (C14.GridSpec.new id ny nx rx ry ox oy fx fy)
+  | _ => none
 
 def run (args : List String) : Option String :=
   match args with
@@ -295,6 +305,59 @@ def run (args : List String) : Option String :=
     | "roi" => pure (fmtSetOut fmtRoi (a.overlapRoi b tolPix))
     | "snap" => pure (fmtSetOut fmtGeoBox (a.snapTo b))
     | _ => none
+  | ["gstile", gs, crs, ix, iy] => do
+    let gs ← parseGridSpec? gs; let crs ← parseCrs? crs; let ix ← parseInt? ix; let iy ← parseInt? iy
+    pure (fmtRes (fun (g : C14.GridSpec) =>
+      let t := tileRectT g (ix, iy)
+      s!"{fmtGeoBox (ofC14 (g.tileGeobox id (ix, iy)) crs)} {t.1};{t.2.1};{t.2.2.1};{t.2.2.2}") gs)
+  | ["gsops", gs, crs, ix, iy, jx, jy] => do
+    let gs ← parseGridSpec? gs; let crs ← parseCrs? crs; let ix ← parseInt? ix; let iy ← parseInt? iy
+    let jx ← parseInt? jx; let jy ← parseInt? jy
+    pure (fmtRes (fun (g : C14.GridSpec) =>
+      let a := ofC14 (g.tileGeobox id (ix, iy)) crs
+      let b := ofC14 (g.tileGeobox id (jx, jy)) crs
+      s!"{fmtRes fmtGeoBox (a.or b)} {fmtRes fmtGeoBox (a.and b)} {fmtRes fmtRoi (a.overlapRoi b tolPix)}") gs)
+  | ["gsrow", gs, crs, i0, iy, m] => do
+    let gs ← parseGridSpec? gs; let crs ← parseCrs? crs; let i0 ← parseInt? i0; let iy ← parseInt? iy
+    let m ← parseNat? m
+    pure (match gs with
+      | .error e => e.toStr
+      | .ok g => fmtRes fmtGeoBox (rowUnion g crs i0 iy m))
+  | ["bbmapb", a, ll, tab] => do
+    let a ← parseBBox? a; let ll ← parseNat? ll; let tab ← parseTable? tab
+    let needed := if a.crs = some ll ∨ a.crs = none then [] else [(a.left, a.bottom), (a.right, a.top)]
+    let rp ← reprojOf? tab needed
+    let r := a.mapBounds rp ll
+    pure s!"{fmtRat r.1.1};{fmtRat r.1.2} {fmtRat r.2.1};{fmtRat r.2.2}"
+  | ["bbaoi", a, ll, tab] => do
+    let a ← parseBBox? a; let ll ← parseNat? ll; let tab ← parseTable? tab
+    let needed := if a.crs = some ll ∨ a.crs = none then [] else a.ringHead :: a.ringTail
+    let rp ← reprojOf? tab needed
+    pure (fmtRes (fun (r : Rat × Rat × Rat × Rat) => s!"{fmtRat r.1};{fmtRat r.2.1};{fmtRat r.2.2.1};{fmtRat r.2.2.2}")
+      (a.aoi rp ll))
+  | ["gcpproj", g, crs, pts, ptab, qtab, tab] => do
+    -- P (p2w) and Q (w2p) of the GCP mapping as tables of the points actually asked for
+    let g ← parseGeoBox? g; let crs ← parseCrs? crs
+    let pts ← parseList? parsePt? pts
+    let ptab ← parseTable? ptab; let qtab ← parseTable? qtab; let tab ← parseTable? tab
+    match pts with
+    | [] => none
+    | p :: ps =>
+      let xcrs := ¬ (crs = none ∨ g.crs = none ∨ crs = g.crs)
+      let rp ← reprojOf? tab (if xcrs then p :: ps else [])
+      let needP := if crs = none then (p :: ps).map g.aff.apply else []
+      let needQ := if crs = none ∨ g.crs = none then [] else (p :: ps).map (fun q => if crs = g.crs then q else rp crs g.crs q)
+      let P ← reprojOf? ptab needP
+      let Q ← reprojOf? qtab needQ
+      pure (fmtRes (fun (r : Option Nat × Pt × List Pt) => s!"{fmtCrs r.1} {fmtPts (r.2.1 :: r.2.2)}")
+        (gcpProject g (P none none) (Q none none) rp crs p ps))
+  | ["reduce", which, gs] => do
+    -- `functools.reduce(operator.or_ / and_, gs)` (a TypeError of reduce on an empty list is not modelled: refused)
+    let gs ← parseList? parseGeoBox? gs
+    match which, gs with
+    | "or", a :: rest => pure (fmtRes fmtGeoBox (List.foldlM (fun acc g => acc.or g) a rest))
+    | "and", a :: rest => pure (fmtRes fmtGeoBox (List.foldlM (fun acc g => acc.and g) a rest))
+    | _, _ => none
   | ["sel", n, a, b] => do
     -- Spec/PySlice validation: indices of a length-n axis selected by `a:b`
     let n ← parseNat? n; let a ← parseInt? a; let b ← parseInt? b
